@@ -465,6 +465,8 @@ _add('C07', 'DeeprobModel.Props.E2ECltSample', 'Deeprob.E2ECltSample', ['loopSam
 _add('C10', _O + 'Struct5Rewrite', 'Deeprob.Oblig.Struct5Rewrite', ['margPassLoop_shape_partial', 'margPassLoop_not_dag'], ['structure.marginalize.loop'])
 _add('C10', 'DeeprobModel.Props.E2ERewriteLoop', 'Deeprob.E2ERewriteLoop', ['mgLoopMarginalize_eq', 'e2e_marginalize_loop_partial'], [])
 _add('C09', _O + 'Struct5Rewrite', 'Deeprob.Oblig.Struct5Rewrite', [], ['structure.prune.loop'])
+_add('C09', _O + 'Struct5Prune', 'Deeprob.Oblig.Struct5Prune', ['pruneStepGen_eq', 'prunePassGen_eq', 'prunePassLoop_shape_partial', 'prunePassLoop_not_dag'], ['structure.prune.loop'])
+_add('C09', 'DeeprobModel.Props.E2EPruneLoop', 'Deeprob.E2EPruneLoop', ['loopPrunePass_eq', 'pgLoopPrune_eq', 'pgPrune_ok', 'e2e_prune_loop_partial'], [])
 # round 5: the Gaussian leaf (density as SciPy evaluates it, normalisation, mode, raw moments of every order as integrals)
 _GT = 'Deeprob.GaussTheory'
 _add('C01', 'DeeprobModel.Props.GaussTheory', _GT, ['gauss_exp_logpdf', 'gauss_integral_one', 'gaussPdf_pos'], [])
